@@ -124,7 +124,7 @@ func TestVerifC25(t *testing.T) {
 	defer rep.Finish()
 	vfInitEngine()
 	th := &Thread{}
-	nexpr := vk.N(2000, 200000)
+	nexpr := vk.N(6000, 200000)
 	const rowsPer = 10
 	const perTable = 40
 	names := vfColNames(vfC25Cols)
